@@ -4,7 +4,10 @@ C17, extension modules (audited together with `Thm/C17.lean`, all in `namespace 
   `Reference` is alive while any handle exists, simulation to the `RefCase` model the driver runs, mutants with failing theorems;
 * `Thm/Lemmas/C17Alias.lean` — the extended machine of `Rrtk/RefAlias.lean` (raw aliases made by `unsafe` code, `clone_from`, `to_dyn!` with the arm
   table as a parameter): invariant `HInvA`, `clone_from` makes the slot an owner (and the mutant that skips equal addresses is refuted),
-  the target is alive while any COUNTED handle exists; raw aliases can dangle (that is what `unsafe` means).
+  the target is alive while any COUNTED handle exists; raw aliases can dangle (that is what `unsafe` means);
+* `Thm/Lemmas/CellBorrowLaws.lean` — the dynamic borrow state of a `RefCell` while borrows are kept alive (`CellBorrow`): invariant,
+  exclusion, balanced programs return to the initial state.
 -/
 import Rrtk.Thm.Lemmas.C17Heap
 import Rrtk.Thm.Lemmas.C17Alias
+import Rrtk.Thm.Lemmas.CellBorrowLaws
